@@ -36,8 +36,17 @@ type evictionState
 type counter
   callback condition(v) (r)
 
+-- the unsubscribe handle of a record's weight subscription waits for the subscription's execution lock, and the
+-- subscription's callback takes the set mutex while it holds that lock: calling the handle while holding the set mutex
+-- can deadlock, so it must be called with no lock held
+type sortedSetElement
+  callback unsubscribeFromWeightUpdates()
+    opt nolocks
+
 -- SortedSet: sortedElements holds the element records heaviest first; every record knows its own position
 type sortedSet
+  callback weightVariable(e) (r)
+    ensures r != nil
   invariant forall i Int :: 0 <= i && i < len(self.sortedElements) ==> self.sortedElements[i] != nil && self.sortedElements[i].index == i && self.sortedElements[i] < $alloc     -- (allocated records)
 
 -- the reactive Set interface as used by the WaitGroup: membership and cardinality
@@ -188,6 +197,14 @@ func Variable.Set(v, x) (prev)
   modifies ghost(vval)
   ensures vval == upd(old(vval), v, x)
 
+-- subscribing to a weight variable: the variable keeps the callback and any later writer invokes it, from its own
+-- goroutine, holding none of the subscriber's locks (opt anytime); the first report may be delivered before OnUpdate returns
+func Variable.OnUpdate(v, callback, trig) (unsub)
+  callback callback(prev, new)
+    opt anytime
+  modifies everything
+  ensures unsub != nil
+
 -- the optional tie-breaker of an element type: a pure comparison (assumed)
 func lessable.Less(l, other) (r)
   ensures true
@@ -220,37 +237,38 @@ func sortedSet.updatePosition$1
   ensures sel(vval, (*s).heaviestElement) == (*s).sortedElements[0].element
   ensures sel(vval, (*s).lightestElement) == (*s).sortedElements[len((*s).sortedElements) - 1].element
 
--- updatePosition: all other records are ordered (heaviest first) and the end references are right for them; the record
--- whose weight changed bubbles to its place: afterwards everything is ordered, the records are the same (a shift of the
--- ones it passed), and the end references name the ends
+-- updatePosition: all other records are ordered (heaviest first: every record is at least as heavy as its successor) and
+-- the end references are right for them; the record whose weight changed bubbles to its place: afterwards everything is
+-- ordered, the records are the same (a shift of the ones it passed), and the end references name the ends
 func sortedSet.updatePosition
   instantiate ElementType: int
   instantiate WeightType: int
   requires s != nil && inv(s) && element != nil && 0 <= element.index && element.index < len(s.sortedElements) && s.sortedElements[element.index] == element
   requires s.heaviestElement != nil && s.lightestElement != nil && s.heaviestElement != s.lightestElement
-  requires forall i Int, j Int :: 0 <= i && i < j && j < len(s.sortedElements) && i != element.index && j != element.index ==> s.sortedElements[i].weight >= s.sortedElements[j].weight
+  requires (forall i Int :: 0 <= i && i + 1 < len(s.sortedElements) && i != element.index && i + 1 != element.index ==> s.sortedElements[i].weight >= s.sortedElements[i + 1].weight) && (0 < element.index && element.index + 1 < len(s.sortedElements) ==> s.sortedElements[element.index - 1].weight >= s.sortedElements[element.index + 1].weight)
   requires element.index != 0 ==> sel(vval, s.heaviestElement) == s.sortedElements[0].element
   requires element.index != len(s.sortedElements) - 1 ==> sel(vval, s.lightestElement) == s.sortedElements[len(s.sortedElements) - 1].element
   modifies sortedSetElement.index, elems(s.sortedElements), ghost(vval)
   -- left loop: the record moves towards the front; the ones it passed moved one place back
   loop 1 invariant inv(s) && 0 <= element.index && element.index <= old(element.index) && s.sortedElements[element.index] == element && s.sortedElements == old(s.sortedElements)
   loop 1 invariant moved <==> element.index != old(element.index)
+  loop 1 invariant element.index > 0 ==> s.sortedElements[element.index - 1] != nil && s.sortedElements[element.index - 1].index == element.index - 1     -- (instance of the record invariant, as a hint)
   loop 1 invariant forall k Int :: 0 <= k && k < element.index ==> s.sortedElements[k] == old(s.sortedElements[k])
   loop 1 invariant forall k Int :: old(element.index) < k && k < len(s.sortedElements) ==> s.sortedElements[k] == old(s.sortedElements[k])
   loop 1 invariant forall k Int :: element.index < k && k <= old(element.index) ==> s.sortedElements[k] == old(s.sortedElements[k - 1])
-  loop 1 invariant forall k Int :: element.index < k && k <= old(element.index) ==> s.sortedElements[k].weight <= element.weight
-  loop 1 invariant forall k Int :: 0 <= k && k < len(s.sortedElements) && old(s.sortedElements[k]) != element ==> old(s.sortedElements[k]).weight == old(old(s.sortedElements[k]).weight)
-  loop 1 invariant forall i Int, j Int :: 0 <= i && i < j && j < len(s.sortedElements) && i != element.index && j != element.index ==> s.sortedElements[i].weight >= s.sortedElements[j].weight
+  loop 1 invariant moved ==> s.sortedElements[element.index + 1].weight <= element.weight
+  loop 1 invariant (forall i Int :: 0 <= i && i + 1 < len(s.sortedElements) && i != element.index && i + 1 != element.index ==> s.sortedElements[i].weight >= s.sortedElements[i + 1].weight) && (0 < element.index && element.index + 1 < len(s.sortedElements) ==> s.sortedElements[element.index - 1].weight >= s.sortedElements[element.index + 1].weight)
   -- right loop (only if it did not move left): the record moves towards the back
   loop 2 invariant inv(s) && old(element.index) <= element.index && element.index < len(s.sortedElements) && s.sortedElements[element.index] == element && s.sortedElements == old(s.sortedElements)
   loop 2 invariant moved <==> element.index != old(element.index)
+  loop 2 invariant element.index < len(s.sortedElements) - 1 ==> s.sortedElements[element.index + 1] != nil && s.sortedElements[element.index + 1].index == element.index + 1     -- (instance of the record invariant, as a hint)
   loop 2 invariant forall k Int :: 0 <= k && k < old(element.index) ==> s.sortedElements[k] == old(s.sortedElements[k])
   loop 2 invariant forall k Int :: element.index < k && k < len(s.sortedElements) ==> s.sortedElements[k] == old(s.sortedElements[k])
   loop 2 invariant forall k Int :: old(element.index) <= k && k < element.index ==> s.sortedElements[k] == old(s.sortedElements[k + 1])
-  loop 2 invariant forall k Int :: 0 <= k && k < element.index ==> s.sortedElements[k].weight >= element.weight
-  loop 2 invariant forall i Int, j Int :: 0 <= i && i < j && j < len(s.sortedElements) && i != element.index && j != element.index ==> s.sortedElements[i].weight >= s.sortedElements[j].weight
+  loop 2 invariant element.index > 0 ==> s.sortedElements[element.index - 1].weight >= element.weight
+  loop 2 invariant (forall i Int :: 0 <= i && i + 1 < len(s.sortedElements) && i != element.index && i + 1 != element.index ==> s.sortedElements[i].weight >= s.sortedElements[i + 1].weight) && (0 < element.index && element.index + 1 < len(s.sortedElements) ==> s.sortedElements[element.index - 1].weight >= s.sortedElements[element.index + 1].weight)
   ensures inv(s) && 0 <= element.index && element.index < len(s.sortedElements) && s.sortedElements[element.index] == element && s.sortedElements == old(s.sortedElements)
-  ensures forall i Int, j Int :: 0 <= i && i < j && j < len(s.sortedElements) ==> s.sortedElements[i].weight >= s.sortedElements[j].weight
+  ensures forall i Int :: 0 <= i && i + 1 < len(s.sortedElements) ==> s.sortedElements[i].weight >= s.sortedElements[i + 1].weight
   -- the same records: the ones between the old and the new position of the record moved by one place, nothing else moved
   ensures forall k Int :: 0 <= k && k < len(s.sortedElements) && ((k < element.index && k < old(element.index)) || (k > element.index && k > old(element.index))) ==> s.sortedElements[k] == old(s.sortedElements[k])
   ensures forall k Int :: element.index < k && k <= old(element.index) ==> s.sortedElements[k] == old(s.sortedElements[k - 1])
@@ -274,17 +292,80 @@ func sortedSet.addSorted$2
   instantiate ElementType: int
   instantiate WeightType: int
   opt sequential
-  requires s != nil && *s != nil && listElement != nil && *listElement != nil && inv(*s)
+  requires s != nil && *s != nil && listElement != nil && *listElement != nil && element != nil && inv(*s)
+  requires (*s).elements != nil && (*s).elements.m != nil && unlocked((*s).elements.mutex)
   requires ((*listElement).unsubscribeFromWeightUpdates == nil ==> held((*s).mutex)) && ((*listElement).unsubscribeFromWeightUpdates != nil ==> unlocked((*s).mutex))
-  requires 0 <= (*listElement).index && (*listElement).index < len((*s).sortedElements) && (*s).sortedElements[(*listElement).index] == *listElement
+  -- the record is in the list (unless it has been removed meanwhile, which the callback finds out under the mutex)
+  requires (*listElement).unsubscribeFromWeightUpdates == nil || (has((*s).elements.m, *element) && (*s).elements.m[*element] == *listElement) ==> 0 <= (*listElement).index && (*listElement).index < len((*s).sortedElements) && (*s).sortedElements[(*listElement).index] == *listElement
   requires (*s).heaviestElement != nil && (*s).lightestElement != nil && (*s).heaviestElement != (*s).lightestElement
-  requires forall i Int, j Int :: 0 <= i && i < j && j < len((*s).sortedElements) && i != (*listElement).index && j != (*listElement).index ==> (*s).sortedElements[i].weight >= (*s).sortedElements[j].weight
-  requires (*listElement).index != 0 ==> sel(vval, (*s).heaviestElement) == (*s).sortedElements[0].element
-  requires (*listElement).index != len((*s).sortedElements) - 1 ==> sel(vval, (*s).lightestElement) == (*s).sortedElements[len((*s).sortedElements) - 1].element
+  requires (forall i Int :: 0 <= i && i + 1 < len((*s).sortedElements) && i != (*listElement).index && i + 1 != (*listElement).index ==> (*s).sortedElements[i].weight >= (*s).sortedElements[i + 1].weight) && (0 < (*listElement).index && (*listElement).index + 1 < len((*s).sortedElements) ==> (*s).sortedElements[(*listElement).index - 1].weight >= (*s).sortedElements[(*listElement).index + 1].weight)
+  requires (*listElement).index != 0 && len((*s).sortedElements) > 0 ==> sel(vval, (*s).heaviestElement) == (*s).sortedElements[0].element
+  requires (*listElement).index != len((*s).sortedElements) - 1 && len((*s).sortedElements) > 0 ==> sel(vval, (*s).lightestElement) == (*s).sortedElements[len((*s).sortedElements) - 1].element
   modifies sortedSetElement.index, (*listElement).weight, elems((*s).sortedElements), ghost(vval)
-  ensures inv(*s) && (*listElement).weight == newWeight && (*s).sortedElements[(*listElement).index] == *listElement
-  ensures forall i Int, j Int :: 0 <= i && i < j && j < len((*s).sortedElements) ==> (*s).sortedElements[i].weight >= (*s).sortedElements[j].weight
-  ensures sel(vval, (*s).heaviestElement) == (*s).sortedElements[0].element
-  ensures sel(vval, (*s).lightestElement) == (*s).sortedElements[len((*s).sortedElements) - 1].element
   ensures ((*listElement).unsubscribeFromWeightUpdates == nil ==> held((*s).mutex)) && ((*listElement).unsubscribeFromWeightUpdates != nil ==> unlocked((*s).mutex))
+  -- a removed record is left alone
+  ensures old((*listElement).unsubscribeFromWeightUpdates != nil && !(has((*s).elements.m, *element) && (*s).elements.m[*element] == *listElement)) ==> (*listElement).weight == old((*listElement).weight) && vval == old(vval) && forall k Int :: 0 <= k && k < len((*s).sortedElements) ==> (*s).sortedElements[k] == old((*s).sortedElements[k]) && (*s).sortedElements[k].index == old((*s).sortedElements[k].index)
+  -- otherwise: the weight is stored, everything is ordered, the end references name the ends
+  ensures !old((*listElement).unsubscribeFromWeightUpdates != nil && !(has((*s).elements.m, *element) && (*s).elements.m[*element] == *listElement)) ==> inv(*s) && (*listElement).weight == newWeight && (*s).sortedElements[(*listElement).index] == *listElement
+  ensures !old((*listElement).unsubscribeFromWeightUpdates != nil && !(has((*s).elements.m, *element) && (*s).elements.m[*element] == *listElement)) ==> forall i Int :: 0 <= i && i + 1 < len((*s).sortedElements) ==> (*s).sortedElements[i].weight >= (*s).sortedElements[i + 1].weight
+  ensures !old((*listElement).unsubscribeFromWeightUpdates != nil && !(has((*s).elements.m, *element) && (*s).elements.m[*element] == *listElement)) ==> sel(vval, (*s).heaviestElement) == (*s).sortedElements[0].element && sel(vval, (*s).lightestElement) == (*s).sortedElements[len((*s).sortedElements) - 1].element
+
+-- the deferred step of deleteSorted: the weight subscription of the removed record is cancelled - with no lock held
+func sortedSet.deleteSorted$1
+  instantiate ElementType: int
+  instantiate WeightType: int
+  opt nolocks
+  requires unsubscribeFromWeightUpdates != nil
+  callback unsubscribeFromWeightUpdates()
+    opt nolocks
+  ensures true
+
+-- deleteSorted: the record of the element leaves the list, the records behind it move up, the ends follow; the weight
+-- subscription is cancelled WITHOUT holding the set mutex
+func sortedSet.deleteSorted
+  instantiate ElementType: int
+  instantiate WeightType: int
+  opt sequential
+  requires s != nil && inv(s) && unlocked(s.mutex) && s.elements != nil && s.elements.m != nil && s.elements.opts != nil && unlocked(s.elements.mutex)
+  requires s.heaviestElement != nil && s.lightestElement != nil && s.heaviestElement != s.lightestElement
+  requires forall k Int :: has(s.elements.m, k) ==> s.elements.m[k] != nil && s.elements.m[k].unsubscribeFromWeightUpdates != nil && 0 <= s.elements.m[k].index && s.elements.m[k].index < len(s.sortedElements) && s.sortedElements[s.elements.m[k].index] == s.elements.m[k]
+  requires forall i Int :: 0 <= i && i + 1 < len(s.sortedElements) ==> s.sortedElements[i].weight >= s.sortedElements[i + 1].weight
+  requires len(s.sortedElements) > 0 ==> sel(vval, s.heaviestElement) == s.sortedElements[0].element && sel(vval, s.lightestElement) == s.sortedElements[len(s.sortedElements) - 1].element
+  modifies s.sortedElements, sortedSetElement.index, elems(s.sortedElements), ghost(vval), s.elements.m, s.elements.deletedKeys, allmaps(s.elements.m)
+  -- the shift loop: the records behind the removed one move up by one place and their positions follow
+  loop 1 invariant held(s.mutex) && s.sortedElements == old(s.sortedElements) && deletedElement != nil && deletedElement == old(s.elements.m[element]) && 0 <= deletedElement.index && deletedElement.index <= i && i <= len(s.sortedElements) - 1
+  loop 1 invariant deletedElement.index == old(s.elements.m[element].index) && s.heaviestElement == old(s.heaviestElement) && s.lightestElement == old(s.lightestElement) && vval == old(vval)
+  loop 1 invariant forall k Int :: 0 <= k && k < deletedElement.index ==> s.sortedElements[k] == old(s.sortedElements[k]) && s.sortedElements[k].index == k
+  loop 1 invariant forall k Int :: deletedElement.index <= k && k < i ==> s.sortedElements[k] == old(s.sortedElements[k + 1]) && s.sortedElements[k].index == k
+  loop 1 invariant forall k Int :: i < k && k < len(s.sortedElements) ==> s.sortedElements[k] == old(s.sortedElements[k]) && s.sortedElements[k].index == k
+  loop 1 invariant i > deletedElement.index ==> s.sortedElements[i] == old(s.sortedElements[i]) && s.sortedElements[i].index == i - 1
+  loop 1 invariant i == deletedElement.index ==> s.sortedElements[i] == deletedElement
+  ensures unlocked(s.mutex)
+  ensures !old(has(s.elements.m, element)) ==> len(s.sortedElements) == old(len(s.sortedElements))
+  ensures old(has(s.elements.m, element)) ==> len(s.sortedElements) == old(len(s.sortedElements)) - 1
+  ensures forall i Int :: 0 <= i && i < len(s.sortedElements) ==> s.sortedElements[i] != nil && s.sortedElements[i].index == i
+  ensures forall i Int :: 0 <= i && i + 1 < len(s.sortedElements) ==> s.sortedElements[i].weight >= s.sortedElements[i + 1].weight
+  ensures len(s.sortedElements) > 0 ==> sel(vval, s.heaviestElement) == s.sortedElements[0].element && sel(vval, s.lightestElement) == s.sortedElements[len(s.sortedElements) - 1].element
+
+-- addSorted: a new record is created under the set mutex and subscribed to its weight variable; the subscription's
+-- callback is handed to the variable for good (see Variable.OnUpdate): whatever it requires must hold whenever a writer
+-- of the weight variable calls it
+func sortedSet.addSorted
+  instantiate ElementType: int
+  instantiate WeightType: int
+  opt sequential
+  requires s != nil && inv(s) && unlocked(s.mutex) && s.elements != nil && s.elements.m != nil && unlocked(s.elements.mutex) && s.weightVariable != nil
+  requires s.heaviestElement != nil && s.lightestElement != nil && s.heaviestElement != s.lightestElement
+  modifies everything
+  ghost after call ShrinkingMap.GetOrCreate: assume r1 ==> r0 != nil        -- a created record is what the factory closure (addSorted$1) returned
+  ensures unlocked(s.mutex)
+
+func sortedSet.addSorted$1
+  instantiate ElementType: int
+  instantiate WeightType: int
+  requires s != nil && *s != nil && inv(*s) && element != nil
+  modifies (*s).sortedElements, allelems(*sortedSetElement)
+  ensures r0 != nil && fresh(r0) && r0.element == *element && r0.weight == 0 && r0.unsubscribeFromWeightUpdates == nil && r0.index == old(len((*s).sortedElements))
+  ensures len((*s).sortedElements) == old(len((*s).sortedElements)) + 1 && (*s).sortedElements[r0.index] == r0 && inv(*s)
+  ensures forall k Int :: 0 <= k && k < old(len((*s).sortedElements)) ==> (*s).sortedElements[k] == old((*s).sortedElements[k])
 @*/
